@@ -115,6 +115,8 @@ namespace occa {
 
           kernelMetadata_t &metadata = metadataMap[func.name()];
           metadata.name = func.name();
+          // A kernel without parameters still has (empty) metadata to validate against
+          metadata.initialized = true;
 
           int args = (int) func.args.size();
           for (int ai = 0; ai < args; ++ai) {
